@@ -538,6 +538,7 @@ func (m *Muxer) rotateParts(nextDTS time.Duration) error {
 
 	verifYield("rotate.beforeBroadcast")
 	m.cond.Broadcast()
+	verifYield("rotate.afterBroadcast")
 
 	return nil
 }
@@ -576,6 +577,7 @@ func (m *Muxer) rotateSegments(
 
 	verifYield("rotate.beforeBroadcast")
 	m.cond.Broadcast()
+	verifYield("rotate.afterBroadcast")
 
 	return nil
 }
